@@ -5,9 +5,13 @@
                            _initialize_upload (offset part), _upload_file
      network/connection.py PeerConnection.receive_file / send_file / receive_until_eof
      transfer/model.py     Transfer.is_transfered, _transfer_progress_callback
-   tied to the source by the correspondence runs of checks/c04.py (real coroutines over fake
-   transports, same inputs, compared field by field).  Definitions only; executable. *)
+   The straight-line decisions (loop test of receive_file, is_transfered, the progress counter, the
+   width of the offset, open mode, receive size, seek) are GENERATED from the source on every run
+   (SlskGen.C04Gen, translate/tr_c04.py); the rest is tied to the source by the correspondence runs
+   of checks/c04.py (real coroutines over fake transports, same inputs, compared field by field).
+   Definitions only; executable.  This is the model of the REPAIRED code (fixes F12 F13 F13b F13c). *)
 From Coq Require Import ZArith NArith List Bool.
+From SlskGen Require Import C04Gen.
 Import ListNotations.
 Open Scope Z_scope.
 
@@ -71,67 +75,68 @@ Definition pieces_of_segments (grant : N) (segs : list bytes) : list bytes :=
 
 (* ---- PeerConnection.receive_file ----------------------------------------------------------
      bytes_received = 0
-     while True:
+     while bytes_received < filesize:               (recv_more, generated)
          data = await self.receive_data(grant)      (None on EOF -> return)
          await file_handle.write(data); callback(data)
          bytes_received += len(data)
-         if bytes_received >= filesize: return
-   [recv remaining ps got] consumes pieces until the test succeeds; returns the consumed pieces
+   [recv remaining ps got] consumes pieces while the test asks for more; returns the consumed pieces
    and whether the loop left through the test (true) or ran out of data (false: the next read
    meets whatever ends the stream). *)
 Fixpoint recv (remaining : Z) (ps : list bytes) (got : Z) : list bytes * bool :=
-  match ps with
-  | [] => ([], false)
-  | p :: ps' =>
-      let got' := got + len p in
-      if Z.leb remaining got' then ([p], true)
-      else let '(w, r) := recv remaining ps' got' in (p :: w, r)
-  end.
+  if recv_more got remaining then
+    match ps with
+    | [] => ([], false)
+    | p :: ps' => let '(w, r) := recv remaining ps' (got + len p) in (p :: w, r)
+    end
+  else ([], true).
 
 (* what ends the stream as seen by the reader *)
 Inductive term := TEof | TReset | TTimeout.
 
-(* final state of the download as left by one session.
-   DWedged     = state DOWNLOADING with the transfer task dead (unhandled exception);
-   DWedgedInit = state INITIALIZING with the transfer task finished: the handler of a failed
-                 offset send calls state.incomplete(), which InitializingState does not have, so
-                 no transition happens. *)
-Inductive dstate := DComplete | DIncomplete | DFailedCancelled | DWedged | DWedgedInit.
+(* final state of the download as left by one attempt.
+   DQueued  = sending the offset failed: the transfer is put back to QUEUED (fix F13b);
+   DRefused = the request carried no file size: it is refused (PeerTransferReply allowed=false) before
+              any state change, the transfer stays as it was (fix F13);
+   DWedged / DWedgedInit = DOWNLOADING / INITIALIZING with no transfer task.  The repaired code never
+              produces them (C04_terminal); they stay in the type so that the theorem says something
+              and so that the correspondence check can name such an observation. *)
+Inductive dstate := DComplete | DIncomplete | DFailedCancelled | DQueued | DRefused | DWedged | DWedgedInit.
 
 Record dres := mkD {
   d_local : bytes;          (* the local file afterwards *)
   d_state : dstate;
-  d_offset : option Z;      (* offset put on the wire (None: sending it failed) *)
+  d_offset : option Z;      (* offset put on the wire (None: not sent) *)
   d_wire : bytes;           (* bytes the downloader wrote on the file connection *)
-  d_bt : Z;                 (* Transfer.bytes_transfered afterwards *)
+  d_bt : Z;                 (* Transfer.bytes_transfered afterwards (-1: untouched) *)
   d_reads : list Z          (* sizes passed to the progress callback *)
 }.
 
-(* _initialize_download from the resolved file connection on, then _download_file.
+(* _initialize_download, then _download_file.
+     request.filesize is None -> reply allowed=False, return                      (DRefused)
+     ... file connection resolved ...
      offset = getsize(local_path); transfer.bytes_transfered = offset; send uint64(offset)
-       ConnectionWriteError -> state.incomplete()  (refused in INITIALIZING: stays INITIALIZING)
-     _download_file: start_transferring; filesize None -> raise (task dies, state DOWNLOADING)
-     open 'ab'; receive_file(handle, filesize - bytes_transfered, callback)
+       ConnectionWriteError -> state.queue()                                        (DQueued)
+     _download_file: open 'ab'; receive_file(handle, filesize - bytes_transfered, callback)
        ConnectionReadError -> INCOMPLETE
-       else: disconnect; is_transfered() (filesize == bytes_transfered) -> COMPLETE else FAILED(Cancelled) *)
+       else: disconnect; is_transfered() -> COMPLETE else FAILED(Cancelled) *)
 Definition download_core (announced : option Z) (local : bytes) (send_ok : bool)
            (ps : list bytes) (t : term) : dres :=
   let off := len local in
-  if negb send_ok then mkD local DWedgedInit None [] off []
-  else
-    let wire := le 8 (Z.to_N off) in
-    match announced with
-    | None => mkD local DWedged (Some off) wire off []
-    | Some fsz =>
-        let '(w, reached) := recv (fsz - off) ps 0 in
+  match announced with
+  | None => mkD local DRefused None [] (-1) []
+  | Some fsz =>
+      if negb send_ok then mkD local DQueued None [] off []
+      else
+        let wire := le offset_width (Z.to_N off) in
+        let '(w, reached) := recv (recv_size fsz off) ps 0 in
         let written := concat w in
-        let bt := off + len written in
+        let bt := progress_add off (len written) in
         let st :=
           if orb reached (match t with TEof => true | _ => false end)
-          then (if Z.eqb fsz bt then DComplete else DFailedCancelled)
+          then (if is_transfered_b fsz bt then DComplete else DFailedCancelled)
           else DIncomplete in
-        mkD (local ++ written) st (Some off) wire bt (map len w)
-    end.
+        mkD (if download_append then local ++ written else written) st (Some off) wire bt (map len w)
+  end.
 
 Definition download_session (announced : option Z) (local : bytes) (send_ok : bool)
            (stream : bytes) (t : term) (chunks : list N) : dres :=
@@ -144,10 +149,11 @@ Definition download_session (announced : option Z) (local : bytes) (send_ok : bo
        ConnectionWriteError -> FAILED + PeerUploadFailed to the peer
      else: receive_until_eof(raise_exception=False)  (no timeout)
            is_transfered() -> COMPLETE else FAILED *)
-(* UStuck  = UPLOADING, waiting (without timeout) for the peer to close;
-   UWedged = UPLOADING with the transfer task dead: seek(offset) raises ValueError (not OSError)
-             for offsets >= 2^63 *)
-Inductive ustate := UComplete | UFailed | UQueued | UStuck | UWedged.
+(* UStuck      = UPLOADING, waiting (without timeout) for the peer to close;
+   UFailedRead  = FAILED with reason 'File read error.' (open/seek/read failed; with fix F13c also
+                  the ValueError of seek for offsets >= 2^63), connection closed by the uploader;
+   UWedged      = UPLOADING with no transfer task: never produced by the repaired code. *)
+Inductive ustate := UComplete | UFailed | UQueued | UStuck | UFailedRead | UWedged.
 
 Record ures := mkU {
   u_wire : bytes;           (* file bytes put on the wire *)
@@ -171,19 +177,19 @@ Definition upload_core (filesize : Z) (offset : option N)
   match offset with
   | None => mkU [] UQueued 0 false
   | Some o =>
-      if N.leb 9223372036854775808 o then mkU [] UWedged (Z.of_N o) false else
+      if N.leb 9223372036854775808 o then mkU [] UFailedRead (Z.of_N o) false else
       let '(w, ok) := send_loop ps cut 0 in
       let wire := concat w in
-      let bt := Z.of_N o + len wire in
+      let bt := progress_add (Z.of_N o) (len wire) in
       if negb ok then mkU wire UFailed bt true
       else if negb peer_closes then mkU wire UStuck bt false
-      else mkU wire (if Z.eqb filesize bt then UComplete else UFailed) bt false
+      else mkU wire (if is_transfered_b filesize bt then UComplete else UFailed) bt false
   end.
 
 Definition upload_session (src : bytes) (filesize : Z) (offset : option N) (grant : N)
            (cut : option Z) (peer_closes : bool) : ures :=
   upload_core filesize offset
-    (match offset with Some o => chop_all grant (dropN o src) | None => [] end) cut peer_closes.
+    (match offset with Some o => chop_all grant (if upload_seek then dropN o src else src) | None => [] end) cut peer_closes.
 
 (* ---- the honest pair and retries ----------------------------------------------------------- *)
 
@@ -252,9 +258,10 @@ Definition read_sizes (grant : N) (segs : list N) : list N :=
 
 (* ---- codes used by the correspondence check ------------------------------------------------ *)
 Definition dcode (s : dstate) : Z :=
-  match s with DComplete => 0 | DIncomplete => 1 | DFailedCancelled => 2 | DWedged => 3 | DWedgedInit => 4 end.
+  match s with DComplete => 0 | DIncomplete => 1 | DFailedCancelled => 2 | DWedged => 3 | DWedgedInit => 4
+  | DQueued => 5 | DRefused => 6 end.
 Definition ucode (s : ustate) : Z :=
-  match s with UComplete => 0 | UFailed => 1 | UQueued => 2 | UStuck => 3 | UWedged => 4 end.
+  match s with UComplete => 0 | UFailed => 1 | UQueued => 2 | UStuck => 3 | UWedged => 4 | UFailedRead => 5 end.
 Definition tcode (z : Z) : term := if Z.eqb z 0 then TEof else if Z.eqb z 1 then TReset else TTimeout.
 
 Fixpoint beq (a b : bytes) : bool :=
@@ -286,14 +293,15 @@ Definition slice_with (bs : Z * Z) (base : bytes) (x : spz) : bytes :=
   if Z.eqb seed (fst bs) && Z.eqb tot (snd bs) then takeN (Z.to_N k) (dropN (Z.to_N start) base) else slice (sp_of x).
 Definition slices_with (bs : Z * Z) (base : bytes) (xs : list spz) : bytes := flat_map (slice_with bs base) xs.
 
-(* expected: state code, offset, wire, bytes_transfered, callback sizes (run-length encoded), file content *)
-Definition expd := (Z * option Z * list Z * Z * list (Z * Z) * list spz)%type.
+(* expected: state code, offset, wire (number of bytes, little-endian value), bytes_transfered, callback
+   sizes (run-length encoded), file content *)
+Definition expd := (Z * option Z * (Z * Z) * Z * list (Z * Z) * list spz)%type.
 (* announced, send_ok, stream, term code, grant, delivered segment sizes, expected *)
 Definition sess := (option Z * bool * spz * Z * Z * list Z * expd)%type.
 
 Definition agree_d (bs : Z * Z) (base : bytes) (d : dres) (e : expd) : bool :=
   let '(st, off, wire, bt, reads, lsp) := e in
-  Z.eqb (dcode (d_state d)) st && oeq (d_offset d) off && beq (d_wire d) (map Z.to_N wire) &&
+  Z.eqb (dcode (d_state d)) st && oeq (d_offset d) off && beq (d_wire d) (le (Z.to_nat (fst wire)) (Z.to_N (snd wire))) &&
   Z.eqb (d_bt d) bt && zleq (d_reads d) (unrle reads) && beq (d_local d) (slices_with bs base lsp).
 
 (* first disagreement of a chain of attempts on one transfer: [id; attempt; model state; model bt; model file length] *)
